@@ -145,9 +145,9 @@ def validate_composites(T, rng, n=5):
 def gate_sets(tier):
     from quantum_gates._gates.gates import standard_gates, numerical_gates, Gates, ScaledNoiseGates
     from quantum_gates._gates.pulse import GaussianPulse
-    sets = [("standard", standard_gates), ("gauss(0.5,0.25)", Gates(GaussianPulse(0.5, 0.25)))]
+    sets = [("standard", standard_gates), ("gauss(0.5,0.25)", Gates(GaussianPulse(0.5, 0.25))), ("scaled(0.3)", ScaledNoiseGates(0.3))]
     if tier == "thorough":
-        sets += [("numerical", numerical_gates), ("gauss(0.2,0.1)", Gates(GaussianPulse(0.2, 0.1))), ("scaled(0.3)", ScaledNoiseGates(0.3)),
+        sets += [("numerical", numerical_gates), ("gauss(0.2,0.1)", Gates(GaussianPulse(0.2, 0.1))),
                  ("scaled(2,gauss)", ScaledNoiseGates(2.0, GaussianPulse(0.7, 0.4)))]
     return sets
 
@@ -207,19 +207,21 @@ def oracle_det(rng, sets, n=4):
     from quantum_gates._gates.gates import noise_free_gates as nf
     out = []; cnt = 0
     for sname, g in sets:
+        sc = float(getattr(g, "noise_scaling", 1.0))     # ScaledNoiseGates(s) samples at (s*p, T/s): the law holds with T1/s
         for t in range(n):
             T1c, T1t = rng.uniform(2e-5, 9e-5, 2); T2c = T1c * rng.uniform(0.3, 2.0); T2t = T1t * rng.uniform(0.3, 2.0)   # domain: T2 <= 2 T1
             pc, pt = rng.uniform(1e-3, 5e-3, 2); p2 = 0.3; tt = rng.uniform(2e-7, 5e-7); a, b = rng.uniform(-3, 3, 2)
             th = rng.uniform(-3, 3)
-            chk = [("X", g.X(a, pc, T1c, T2c), nf.X(a, 0, 0, 0), det_pred(2, [(TG, T1c)]), (a, pc, T1c, T2c)),
-                   ("SX", g.SX(a, pc, T1c, T2c), nf.SX(a, 0, 0, 0), det_pred(2, [(TG, T1c)]), (a, pc, T1c, T2c)),
-                   ("single_qubit_gate", g.single_qubit_gate(th, a, pc, T1c, T2c), np.eye(2), det_pred(2, [(TG, T1c)]), (th, a, pc, T1c, T2c)),
-                   ("CR", g.CR(0.7, a, tt, 0.02, T1c, T2c, T1t, T2t), np.eye(4), det_pred(4, [(tt, T1c), (tt, T1t)]), (0.7, a, tt, 0.02, T1c, T2c, T1t, T2t)),
-                   ("relaxation", g.relaxation(tt, T1c, T2c), np.eye(2), det_pred(2, [(tt, T1c)]), (tt, T1c, T2c)),
+            E1c, E1t = T1c / sc, T1t / sc      # effective T1 seen by the factories
+            chk = [("X", g.X(a, pc, T1c, T2c), nf.X(a, 0, 0, 0), det_pred(2, [(TG, E1c)]), (a, pc, T1c, T2c)),
+                   ("SX", g.SX(a, pc, T1c, T2c), nf.SX(a, 0, 0, 0), det_pred(2, [(TG, E1c)]), (a, pc, T1c, T2c)),
+                   ("single_qubit_gate", g.single_qubit_gate(th, a, pc, T1c, T2c), np.eye(2), det_pred(2, [(TG, E1c)]), (th, a, pc, T1c, T2c)),
+                   ("CR", g.CR(0.7, a, tt, 0.02, T1c, T2c, T1t, T2t), np.eye(4), det_pred(4, [(tt, E1c), (tt, E1t)]), (0.7, a, tt, 0.02, T1c, T2c, T1t, T2t)),
+                   ("relaxation", g.relaxation(tt, T1c, T2c), np.eye(2), det_pred(2, [(tt, E1c)]), (tt, T1c, T2c)),
                    ("depolarizing", g.depolarizing(tt, pc), np.eye(2), 1, (tt, pc)), ("bitflip", g.bitflip(tt, 0.03), np.eye(2), 1, (tt, 0.03))]
             for nm, tc in (('CNOT', tt), ('CNOT_inv', tt), ('ECR', tt - TG), ('ECR_inv', tt + TG)):
                 args = (a, b, tt, p2, pc, pt, T1c, T2c, T1t, T2t)
-                chk.append((nm, getattr(g, nm)(*args), getattr(nf, nm)(a, b, tt, 0, 0, 0, 0, 0, 0, 0), det_pred(4, [(tc, T1c), (tc, T1t)]), args))
+                chk.append((nm, getattr(g, nm)(*args), getattr(nf, nm)(a, b, tt, 0, 0, 0, 0, 0, 0, 0), det_pred(4, [(tc, E1c), (tc, E1t)]), args))
             for nm, G, G0, pr, args in chk:
                 cnt += 1
                 r = np.linalg.det(G) / np.linalg.det(G0) / pr
